@@ -11,7 +11,7 @@ From Coquelicot Require Coquelicot.
 Import Coquelicot.Hierarchy Coquelicot.RInt.
 From OM Require Import Base.Ops Base.OpsR Base.Vec3 Gen.GenQuadTables Geom.Kernels Geom.Quadrature
                        Geom.QuadTablesProofs Geom.QuadProofs Geom.KernelProofs
-                       Geom.QuadSymmetry Geom.AdaptiveProofs Geom.EdgeIntegral Geom.SolidAngleValues.
+                       Geom.QuadSymmetry Geom.AdaptiveProofs Geom.EdgeIntegral Geom.SolidAngleValues Geom.GreenFallback.
 From Coq Require Import Permutation.
 Import ListNotations.
 
@@ -270,6 +270,36 @@ Theorem green_log_is_edge_integral : forall p0 p1 x : vec3 R,
           (ln (green_arg OpsR p0x (norm OpsR p0x) p1x (norm OpsR p1x) e (norm OpsR e))).
 Proof. exact green_log_is_edge_integral_lemma. Qed.
 Print Assumptions green_log_is_edge_integral.
+
+(* ON the edge line.  Whenever the denominator |p1x||e| - p1x.e vanishes (x on the edge or on its extension on the
+   first-vertex side; over R the quotient is then num * /0 = 0, over doubles +inf or NaN) the model takes the FALLBACK branch *)
+Theorem green_fallback_when_denominator_vanishes : forall (p0x p1x e : vec3 R) (n0 n1 ne : R),
+  n1 * ne - dot OpsR p1x e = 0 ->
+  integral_simplified_green OpsR p0x n0 p1x n1 e ne = Rabs (ln (n1 / n0)).
+Proof. exact green_fallback_when_denominator_vanishes_lemma. Qed.
+Print Assumptions green_fallback_when_denominator_vanishes.
+
+(* for x = p0 - s (p1-p0), s > 0 (extension of the edge beyond its first vertex) the value is the finite closed form
+   ln((1+s)/s) ... *)
+Theorem green_on_edge_line_value : forall (p0 p1 : vec3 R) (s : R), 0 < s -> 0 < norm OpsR (vsub OpsR p1 p0) ->
+  let e := vsub OpsR p1 p0 in let x := vsub OpsR p0 (vscale OpsR s e) in
+  integral_simplified_green OpsR (vsub OpsR p0 x) (norm OpsR (vsub OpsR p0 x)) (vsub OpsR p1 x) (norm OpsR (vsub OpsR p1 x))
+                            e (norm OpsR e) = ln ((1 + s) / s).
+Proof. exact green_on_line_value. Qed.
+Print Assumptions green_on_edge_line_value.
+
+(* ... which is again the line integral of 1/|x-y| along the edge: closed form = integral on the line as well *)
+Theorem green_on_edge_line_is_edge_integral : forall (p0 p1 : vec3 R) (s : R), 0 < s -> 0 < norm OpsR (vsub OpsR p1 p0) ->
+  let e := vsub OpsR p1 p0 in let x := vsub OpsR p0 (vscale OpsR s e) in
+  Coquelicot.RInt.is_RInt (fun t => norm OpsR e / norm OpsR (vsub OpsR (vadd OpsR p0 (vscale OpsR t e)) x)) 0 1 (ln ((1 + s) / s)).
+Proof. exact green_on_line_is_edge_integral. Qed.
+Print Assumptions green_on_edge_line_is_edge_integral.
+
+Example green_on_edge_line_dyadic_point :
+  let p0 := mkV 0 0 0 in let p1 := mkV 1 0 0 in let x := mkV (-1) 0 0 in
+  integral_simplified_green OpsR (vsub OpsR p0 x) (norm OpsR (vsub OpsR p0 x)) (vsub OpsR p1 x) (norm OpsR (vsub OpsR p1 x))
+                            (vsub OpsR p1 p0) (norm OpsR (vsub OpsR p1 p0)) = ln 2.
+Proof. exact green_on_line_dyadic. Qed.
 
 (* a value forced by symmetry: the coordinate octant, 4 PI / 8 *)
 Theorem solid_angle_octant : forall a b c, 0 < a -> 0 < b -> 0 < c ->
